@@ -37,7 +37,12 @@ def factory(ns, nkeys=2, pre_entry=True, structured=False):
             if structured:
                 # a JSON object with one number-or-boolean member: 1 and true are == in Python but different JSON values
                 leaf = lambda nm: t.any(nm, [('int', t.int(nm + '.i')), ('bool', t.bool(nm + '.b'))])
-                p, p2 = {'n': leaf('p.n'), 'fixed': [1, 'x']}, {'n': leaf('p2.n'), 'fixed': [1, 'x']}
+                if structured == 'envelope':
+                    # a payload that itself looks like a signed envelope (a signed document being countersigned): still just a payload
+                    p = {'signatures': {'aa' * 32: {'signature': 'ab' * 64}}, 'signed': {'n': leaf('p.n')}}
+                    p2 = {'signatures': {'aa' * 32: {'signature': 'ab' * 64}}, 'signed': {'n': leaf('p2.n')}}
+                else:
+                    p, p2 = {'n': leaf('p.n'), 'fixed': [1, 'x']}, {'n': leaf('p2.n'), 'fixed': [1, 'x']}
             else:
                 p = t.payload('p', dict)
                 p2 = t.payload('p2', dict)
@@ -357,6 +362,7 @@ def judge(case, obs):
 def units(tier):
     return [Unit('roundtrip:2keys', factory('rt2', 2), expect=('verifies', 'two signers'), max_witnesses=40 if tier == 'quick' else 200),
             Unit('roundtrip:structured', factory('rts', 1, structured=True), expect=('verifies',), max_witnesses=40),
+            Unit('roundtrip:envelope-shaped payload', factory('rte', 1, structured='envelope'), expect=('verifies',), max_witnesses=40),
             Unit('sequential signers', sequential_factory('sq'), expect=('two sequential signers',), max_witnesses=10)]
 
 
